@@ -605,7 +605,7 @@ func (e *Enc) obligeNamed(name, kind, detail string, pos token.Pos, goal Term, p
 	// preconditions, invariants); pure proof goals (frames, effects, locks, postconditions) are not assumed,
 	// so that one failing goal does not make the goals after it vacuous.
 	switch kind {
-	case "frame", "effect", "lock", "guard", "post", "typeinv", "typeinv-new", "cand", "monotone", "writers", "at", "callers":
+	case "frame", "effect", "lock", "guard", "post", "typeinv", "typeinv-new", "cand", "monotone", "writers", "at", "callers", "flows", "opaque":
 	default:
 		e.assume(goal)
 	}
@@ -987,10 +987,26 @@ func (e *Enc) valName(v ssa.Value) string {
 
 // ---------- exit / postconditions ----------
 
+// coverEnd: vacuity guard emitted for every function: all facts assumed on the way to the
+// function's exit must be jointly satisfiable (an inconsistent assumption would prove anything).
+func (e *Enc) coverEnd(reach Term) {
+	ob := &Obligation{Name: e.name + "/cover/consistent", Kind: "cover", Func: e.name, Pos: e.p.Pos(e.fn.Pos()), enc: e, Src: "assumptions up to the function's exit are satisfiable"}
+	ob.PrefixLen = e.sb.Len()
+	ob.ReachS = "true"
+	ob.Goal = "(assert " + reach.S + ")"
+	e.emit("(push 1)")
+	e.emit(ob.Goal)
+	e.emit("(check-sat)")
+	e.emit("(pop 1)")
+	e.obs = append(e.obs, ob)
+}
+
 func (e *Enc) encodeExit() {
 	if len(e.rets) == 0 {
+		e.coverEnd(True)
 		return
 	}
+	defer func() { e.coverEnd(e.curReach) }()
 	var edges []Term
 	var states []*State
 	for _, r := range e.rets {
